@@ -7,42 +7,53 @@ import (
 	"bytes"
 	"context"
 	"encoding/json"
+	"errors"
+	"sort"
+	"strconv"
+	"sync"
 
 	"github.com/samsarahq/thunder/graphql"
-	"github.com/samsarahq/thunder/graphql/schemabuilder"
 	"github.com/samsarahq/thunder/internal/zzverif/nondet"
 )
 
-// C06: the gateway (real schema syncer, planner, flattener, executor, direct
-// executor clients, federation servers built with the real schema builder)
-// answers like one combined server over the same data.
+// C06: the gateway answers like one combined server.
+//
+// Real code under the interpreter: convertSchema / ConvertVersionedSchemas /
+// mergeSchemaSlice / parseSchema (service introspection results -> merged schema
+// with per-field service sets and federated keys), NewPlanner, the flattener
+// (normalize.go), planRoot / planObject / planUnion, Executor.Execute / execute /
+// runOnService / extractKeys / the stitching loop, DirectExecutorClient,
+// MarshalQuery / UnmarshalQuery, Server.Execute / ExecuteRequest (rerunner),
+// graphql.PrepareQuery and the graphql executor on every service.
+//
+// Harness: every service's graphql.Schema and its introspection result are built
+// side by side from one description (hand-built types as in C01; the shapes —
+// `_federation` on every federated object, `Federation.<service>_<Type>(keys:)`
+// returning the objects rebuilt from their keys, `<Type>_InputObject` listing the
+// key fields — are those the schema builder's FetchObjectFromKeys produces; the
+// consistency entry compares them with a real schema-builder service).
 
-type c06Item struct {
-	Id int64
-}
+type c06Item struct{ Id int64 }
+type c06Sub struct{ Id int64 }
+type c06Other struct{ Id int64 }
 
-type c06Sub struct {
-	Id int64
-}
-
-type c06Other struct {
-	Id int64
-}
-
+// c06Thing is the union value: fields named after the member types.
 type c06Thing struct {
-	schemabuilder.Union
-	*c06Item
-	*c06Other
+	Item  *c06Item
+	Other *c06Other
 }
 
 type c06Data struct {
-	a, b  map[int64]int64
-	name  map[int64]string
-	subOf map[int64]int64 // item id -> sub id (0: none)
-	c     map[int64]int64 // sub id -> value
+	items  []int64 // ids returned by Query.items
+	first  int64   // id returned by Query.first (0: null)
+	things []c06Thing
+	a, b   map[int64]int64
+	name   map[int64]string
+	subOf  map[int64]int64 // item id -> sub id (0: null)
+	c      map[int64]int64 // sub id -> value
 }
 
-// c06Assign: which services implement each movable field.
+// c06Assign: the services that implement each movable field.
 type c06Assign map[string][]string
 
 func (as c06Assign) has(field, service string) bool {
@@ -57,81 +68,284 @@ func (as c06Assign) has(field, service string) bool {
 	return false
 }
 
-// c06Build builds the schema of one service ("" = the combined server).
-func c06Build(service string, as c06Assign, d *c06Data) *graphql.Schema {
-	name := service
-	if name == "" {
-		name = "combined"
+func c06NN(t *introspectionTypeRef) *introspectionTypeRef {
+	return &introspectionTypeRef{Kind: "NON_NULL", OfType: t}
+}
+func c06L(t *introspectionTypeRef) *introspectionTypeRef {
+	return &introspectionTypeRef{Kind: "LIST", OfType: t}
+}
+func c06R(kind, name string) *introspectionTypeRef {
+	return &introspectionTypeRef{Kind: kind, Name: name}
+}
+
+type c06Builder struct {
+	service string
+	objs    map[string]*graphql.Object
+	intro   map[string]*introspectionType
+}
+
+func (b *c06Builder) object(name string) *graphql.Object {
+	if o, ok := b.objs[name]; ok {
+		return o
 	}
-	s := schemabuilder.NewSchemaWithName(name)
-	var itemOpts, subOpts, otherOpts []schemabuilder.ObjectOption
+	o := &graphql.Object{Name: name, Fields: map[string]*graphql.Field{}}
+	b.objs[name] = o
+	b.intro[name] = &introspectionType{Name: name, Kind: "OBJECT", Fields: []introspectionField{}, InputFields: []introspectionInputField{}, PossibleTypes: []*introspectionTypeRef{}, EnumValues: []introspectionEnumValue{}, Interfaces: []*introspectionTypeRef{}}
+	return o
+}
+
+func c06NoArgs(json interface{}) (interface{}, error) { return nil, nil }
+
+func (b *c06Builder) field(obj, name string, typ graphql.Type, ref *introspectionTypeRef, resolve func(src interface{}) (interface{}, error)) *graphql.Field {
+	o := b.object(obj)
+	f := &graphql.Field{Type: typ, Args: map[string]graphql.Type{}, ParseArguments: c06NoArgs,
+		Resolve: func(ctx context.Context, source, args interface{}, sel *graphql.SelectionSet) (interface{}, error) {
+			return resolve(source)
+		}}
+	o.Fields[name] = f
+	it := b.intro[obj]
+	it.Fields = append(it.Fields, introspectionField{Name: name, Type: ref, Args: []introspectionInputField{}})
+	return f
+}
+
+var c06Int = &graphql.Scalar{Type: "int64"}
+var c06Str = &graphql.Scalar{Type: "string"}
+
+// federated registers what FetchObjectFromKeys adds for an object with key `id`.
+func (b *c06Builder) federated(name string, rebuild func(id int64) interface{}) {
+	o := b.object(name)
+	idf := b.field(name, "id", &graphql.NonNull{Type: c06Int}, c06NN(c06R("SCALAR", "int64")), func(src interface{}) (interface{}, error) { return c06ID(src), nil })
+	o.KeyField = idf
+	if b.service == "" {
+		return
+	}
+	b.field(name, "_federation", o, c06R("OBJECT", name), func(src interface{}) (interface{}, error) { return src, nil })
+	inputName := name + "_InputObject"
+	input := &graphql.InputObject{Name: inputName, InputFields: map[string]graphql.Type{"id": &graphql.NonNull{Type: c06Int}}}
+	b.intro[inputName] = &introspectionType{Name: inputName, Kind: "INPUT_OBJECT", Fields: []introspectionField{}, InputFields: []introspectionInputField{{Name: "id", Type: c06NN(c06R("SCALAR", "int64"))}}, PossibleTypes: []*introspectionTypeRef{}, EnumValues: []introspectionEnumValue{}, Interfaces: []*introspectionTypeRef{}}
+	fed := b.object("Federation")
+	fname := b.service + "_" + name
+	fed.Fields[fname] = &graphql.Field{
+		Type: &graphql.NonNull{Type: &graphql.List{Type: &graphql.NonNull{Type: o}}},
+		Args: map[string]graphql.Type{"keys": &graphql.NonNull{Type: &graphql.List{Type: input}}},
+		ParseArguments: func(js interface{}) (interface{}, error) {
+			m, ok := js.(map[string]interface{})
+			if !ok {
+				return nil, errors.New("keys: not an object")
+			}
+			list, ok := m["keys"].([]interface{})
+			if !ok {
+				return nil, errors.New("keys: not a list")
+			}
+			out := make([]interface{}, 0, len(list))
+			for _, k := range list {
+				km, ok := k.(map[string]interface{})
+				if !ok {
+					return nil, errors.New("key: not an object")
+				}
+				if len(km) != 1 {
+					return nil, errors.New("key: unknown fields")
+				}
+				var id int64
+				switch n := km["id"].(type) {
+				case float64:
+					id = int64(n)
+				case json.Number:
+					v, err := n.Int64()
+					if err != nil {
+						return nil, err
+					}
+					id = v
+				default:
+					return nil, errors.New("key id: not a number")
+				}
+				out = append(out, rebuild(id))
+			}
+			return out, nil
+		},
+		Resolve: func(ctx context.Context, source, args interface{}, sel *graphql.SelectionSet) (interface{}, error) {
+			return args, nil
+		},
+	}
+	it := b.intro["Federation"]
+	it.Fields = append(it.Fields, introspectionField{Name: fname, Type: c06NN(c06L(c06NN(c06R("OBJECT", name)))),
+		Args: []introspectionInputField{{Name: "keys", Type: c06NN(c06L(c06R("INPUT_OBJECT", inputName)))}}})
+}
+
+func c06ID(src interface{}) int64 {
+	switch s := src.(type) {
+	case *c06Item:
+		return s.Id
+	case *c06Sub:
+		return s.Id
+	case *c06Other:
+		return s.Id
+	}
+	panic("c06ID")
+}
+
+// c06Service builds the schema of one service ("" = the combined server) and
+// its introspection result.
+func c06Service(service string, as c06Assign, d *c06Data) (*graphql.Schema, *IntrospectionQueryResult) {
+	b := &c06Builder{service: service, objs: map[string]*graphql.Object{}, intro: map[string]*introspectionType{}}
+	query := b.object("Query")
+	b.object("Mutation")
 	if service != "" {
-		itemOpts = append(itemOpts, schemabuilder.FetchObjectFromKeys(func(args struct{ Keys []*c06Item }) []*c06Item { return args.Keys }))
-		subOpts = append(subOpts, schemabuilder.FetchObjectFromKeys(func(args struct{ Keys []*c06Sub }) []*c06Sub { return args.Keys }))
-		otherOpts = append(otherOpts, schemabuilder.FetchObjectFromKeys(func(args struct{ Keys []*c06Other }) []*c06Other { return args.Keys }))
+		b.object("Federation")
+		b.field("Query", "_federation", &graphql.NonNull{Type: b.object("Federation")}, c06NN(c06R("OBJECT", "Federation")), func(src interface{}) (interface{}, error) { return struct{}{}, nil })
 	}
-	item := s.Object("Item", c06Item{}, itemOpts...)
-	item.Key("id")
-	sub := s.Object("Sub", c06Sub{}, subOpts...)
-	sub.Key("id")
-	other := s.Object("Other", c06Other{}, otherOpts...)
-	other.Key("id")
-	q := s.Query()
-	s.Mutation()
+	b.federated("Item", func(id int64) interface{} { return &c06Item{Id: id} })
+	b.federated("Sub", func(id int64) interface{} { return &c06Sub{Id: id} })
+	b.federated("Other", func(id int64) interface{} { return &c06Other{Id: id} })
+	item, sub, other := b.object("Item"), b.object("Sub"), b.object("Other")
+	intNN, intRef := &graphql.NonNull{Type: c06Int}, c06NN(c06R("SCALAR", "int64"))
 	if as.has("Item.a", service) {
-		item.FieldFunc("a", func(it *c06Item) int64 { return d.a[it.Id] })
+		b.field("Item", "a", intNN, intRef, func(src interface{}) (interface{}, error) { return d.a[src.(*c06Item).Id], nil })
 	}
 	if as.has("Item.b", service) {
-		item.FieldFunc("b", func(it *c06Item) int64 { return d.b[it.Id] })
+		b.field("Item", "b", intNN, intRef, func(src interface{}) (interface{}, error) { return d.b[src.(*c06Item).Id], nil })
 	}
 	if as.has("Item.name", service) {
-		item.FieldFunc("name", func(it *c06Item) string { return d.name[it.Id] })
+		b.field("Item", "name", &graphql.NonNull{Type: c06Str}, c06NN(c06R("SCALAR", "string")), func(src interface{}) (interface{}, error) { return d.name[src.(*c06Item).Id], nil })
 	}
 	if as.has("Item.sub", service) {
-		item.FieldFunc("sub", func(it *c06Item) *c06Sub {
-			if id := d.subOf[it.Id]; id != 0 {
-				return &c06Sub{Id: id}
+		b.field("Item", "sub", sub, c06R("OBJECT", "Sub"), func(src interface{}) (interface{}, error) {
+			if id := d.subOf[src.(*c06Item).Id]; id != 0 {
+				return &c06Sub{Id: id}, nil
 			}
-			return nil
+			return (*c06Sub)(nil), nil
 		})
 	}
 	if as.has("Sub.c", service) {
-		sub.FieldFunc("c", func(su *c06Sub) int64 { return d.c[su.Id] })
+		b.field("Sub", "c", intNN, intRef, func(src interface{}) (interface{}, error) { return d.c[src.(*c06Sub).Id], nil })
 	}
 	if as.has("Other.o", service) {
-		other.FieldFunc("o", func(o *c06Other) int64 { return 100 + o.Id })
+		b.field("Other", "o", intNN, intRef, func(src interface{}) (interface{}, error) { return 100 + src.(*c06Other).Id, nil })
 	}
 	if as.has("Query.items", service) {
-		q.FieldFunc("items", func() []*c06Item { return []*c06Item{{Id: 1}, {Id: 2}} })
-	}
-	if as.has("Query.first", service) {
-		q.FieldFunc("first", func() *c06Item { return &c06Item{Id: 1} })
-	}
-	if as.has("Query.things", service) {
-		q.FieldFunc("things", func() []*c06Thing {
-			return []*c06Thing{{c06Item: &c06Item{Id: 2}}, {c06Other: &c06Other{Id: 5}}, {c06Item: &c06Item{Id: 1}}}
+		b.field("Query", "items", &graphql.NonNull{Type: &graphql.List{Type: item}}, c06NN(c06L(c06R("OBJECT", "Item"))), func(src interface{}) (interface{}, error) {
+			out := []*c06Item{}
+			for _, id := range d.items {
+				out = append(out, &c06Item{Id: id})
+			}
+			return out, nil
 		})
 	}
-	return s.MustBuild()
+	if as.has("Query.first", service) {
+		b.field("Query", "first", item, c06R("OBJECT", "Item"), func(src interface{}) (interface{}, error) {
+			if d.first == 0 {
+				return (*c06Item)(nil), nil
+			}
+			return &c06Item{Id: d.first}, nil
+		})
+	}
+	if as.has("Query.things", service) {
+		union := &graphql.Union{Name: "Thing", Types: map[string]*graphql.Object{"Item": item, "Other": other}}
+		b.intro["Thing"] = &introspectionType{Name: "Thing", Kind: "UNION", Fields: []introspectionField{}, InputFields: []introspectionInputField{},
+			PossibleTypes: []*introspectionTypeRef{c06R("OBJECT", "Item"), c06R("OBJECT", "Other")}, EnumValues: []introspectionEnumValue{}, Interfaces: []*introspectionTypeRef{}}
+		b.field("Query", "things", &graphql.NonNull{Type: &graphql.List{Type: union}}, c06NN(c06L(c06R("UNION", "Thing"))), func(src interface{}) (interface{}, error) {
+			out := []*c06Thing{}
+			for i := range d.things {
+				t := d.things[i]
+				out = append(out, &t)
+			}
+			return out, nil
+		})
+	}
+	for _, n := range []string{"int64", "string"} {
+		b.intro[n] = &introspectionType{Name: n, Kind: "SCALAR", Fields: []introspectionField{}, InputFields: []introspectionInputField{}, PossibleTypes: []*introspectionTypeRef{}, EnumValues: []introspectionEnumValue{}, Interfaces: []*introspectionTypeRef{}}
+	}
+	var names []string
+	for n := range b.intro {
+		names = append(names, n)
+	}
+	sort.Strings(names)
+	res := &IntrospectionQueryResult{}
+	for _, n := range names {
+		t := b.intro[n]
+		sort.Slice(t.Fields, func(i, j int) bool { return t.Fields[i].Name < t.Fields[j].Name })
+		res.Schema.Types = append(res.Schema.Types, *t)
+	}
+	return &graphql.Schema{Query: query, Mutation: b.object("Mutation")}, res
 }
+
+// ---------- the gateway and the reference server
 
 type c06World struct {
 	gateway  *Executor
 	combined *graphql.Schema
-	cancel   context.CancelFunc
+	planner  *Planner
+	requests map[string]int // sub-requests received per service
 }
 
-func c06Setup(services []string, as c06Assign, d *c06Data) *c06World {
-	ctx, cancel := context.WithCancel(context.Background())
-	execs := map[string]ExecutorClient{}
-	for _, svc := range services {
-		srv, err := NewServer(c06Build(svc, as, d))
-		nondet.Assert(err == nil, "harness-server-builds")
-		execs[svc] = &DirectExecutorClient{Client: srv}
+type c06Client struct {
+	name  string
+	inner ExecutorClient
+	w     *c06World
+}
+
+func (c *c06Client) Execute(ctx context.Context, req *QueryRequest) (*QueryResponse, error) {
+	c.w.requests[c.name]++
+	return c.inner.Execute(ctx, req)
+}
+
+// c06Lean does what DirectExecutorClient + Server.Execute + ExecuteRequest do
+// for one sub-request — protobuf round trip of the query, PrepareQuery,
+// Execute, JSON — without the rerunner goroutine and its timer (their
+// scheduling is immaterial here and is decided by C15 FedCancel and C04).
+type c06Lean struct{ srv *Server }
+
+func (c *c06Lean) Execute(ctx context.Context, request *QueryRequest) (*QueryResponse, error) {
+	marshaled, err := MarshalQuery(request.Query)
+	if err != nil {
+		return nil, err
 	}
-	gw, err := NewExecutor(ctx, execs, &SchemaSyncerConfig{SchemaSyncer: NewIntrospectionSchemaSyncer(ctx, execs, nil)})
-	nondet.Assert(err == nil, "gateway-builds")
-	return &c06World{gateway: gw, combined: c06Build("", as, d), cancel: cancel}
+	query, err := UnmarshalQuery(marshaled)
+	if err != nil {
+		return nil, err
+	}
+	var schema graphql.Type = c.srv.schema.Query
+	if query.Kind == "mutation" {
+		schema = c.srv.schema.Mutation
+	}
+	if err := graphql.PrepareQuery(ctx, schema, query.SelectionSet); err != nil {
+		return nil, err
+	}
+	res, err := c.srv.localExecutor.Execute(ctx, schema, nil, query)
+	if err != nil {
+		return nil, errors.New("executing query: " + err.Error())
+	}
+	b, err := json.Marshal(res)
+	if err != nil {
+		return nil, err
+	}
+	return &QueryResponse{Result: b}, nil
+}
+
+var c06RealClients bool
+
+func c06Setup(services []string, as c06Assign, d *c06Data) *c06World {
+	w := &c06World{requests: map[string]int{}}
+	execs := map[string]ExecutorClient{}
+	schemas := map[string]*IntrospectionQueryResult{}
+	for _, svc := range services {
+		schema, intro := c06Service(svc, as, d)
+		schemas[svc] = intro
+		srv := &Server{schema: schema, localExecutor: graphql.NewExecutor(&c15Sched{})}
+		var inner ExecutorClient = &c06Lean{srv: srv}
+		if c06RealClients {
+			inner = &DirectExecutorClient{Client: srv}
+		}
+		execs[svc] = &c06Client{name: svc, inner: inner, w: w}
+	}
+	types, err := convertSchema(schemas)
+	nondet.Assert(err == nil, "schemas-convert")
+	planner, err := NewPlanner(types, nil)
+	nondet.Assert(err == nil, "planner-builds")
+	w.planner = planner
+	w.gateway = &Executor{Executors: execs, syncer: &Syncer{plannerMu: &sync.RWMutex{}, planner: planner}}
+	w.combined, _ = c06Service("", as, d)
+	return w
 }
 
 // c06Canon: a result as the JSON a client receives (decoded generically).
@@ -149,6 +363,8 @@ func c06Canon(v interface{}) (interface{}, error) {
 	return out, nil
 }
 
+// reference: the combined server's answer; ok=false if the query is not valid
+// against the combined schema (then nothing is demanded of the gateway).
 func (w *c06World) reference(text string) (interface{}, bool) {
 	q, err := graphql.Parse(text, nil)
 	if err != nil {
@@ -177,21 +393,348 @@ func (w *c06World) viaGateway(text string) (interface{}, error) {
 	return c06Canon(v)
 }
 
-func c06Fixed() *c06Data {
+func c06FixedData() *c06Data {
 	return &c06Data{
-		a: map[int64]int64{1: 11, 2: 12}, b: map[int64]int64{1: 21, 2: 22}, name: map[int64]string{1: "one", 2: "two"},
+		items: []int64{1, 2}, first: 1,
+		things: []c06Thing{{Item: &c06Item{Id: 2}}, {Other: &c06Other{Id: 5}}, {Item: &c06Item{Id: 1}}},
+		a:     map[int64]int64{1: 11, 2: 12}, b: map[int64]int64{1: 21, 2: 22}, name: map[int64]string{1: "one", 2: "two"},
 		subOf: map[int64]int64{1: 7}, c: map[int64]int64{7: 70},
 	}
 }
 
+// ---------- queries
+
+type c06Gen struct {
+	used map[string]bool // movable fields the query mentions
+	rich bool            // aliases, inline fragments, __typename
+}
+
+func (g *c06Gen) subSel(name string, slots int) string {
+	out := ""
+	for i := 0; i < slots; i++ {
+		switch nondet.Choice(name+"."+strconv.Itoa(i), 3) {
+		case 1:
+			out += " id"
+		case 2:
+			out += " c"
+			g.used["Sub.c"] = true
+		}
+	}
+	if out == "" {
+		out = " id"
+	}
+	return "{" + out + " }"
+}
+
+// itemSel: a selection set on Item with up to `slots` entries.
+func (g *c06Gen) itemSel(name string, slots int, subSlots int) string {
+	out := ""
+	opts := 5
+	if g.rich {
+		opts = 10
+	}
+	for i := 0; i < slots; i++ {
+		p := name + "." + strconv.Itoa(i)
+		switch nondet.Choice(p, opts) {
+		case 1:
+			out += " a"
+			g.used["Item.a"] = true
+		case 2:
+			out += " b"
+			g.used["Item.b"] = true
+		case 3:
+			out += " sub " + g.subSel(p+".sub", subSlots)
+			g.used["Item.sub"] = true
+		case 4:
+			out += " id"
+		case 5:
+			out += " name"
+			g.used["Item.name"] = true
+		case 6:
+			out += " x: b"
+			g.used["Item.b"] = true
+		case 7:
+			out += " __typename"
+		case 8:
+			out += " ... on Item { b }"
+			g.used["Item.b"] = true
+		case 9:
+			out += " x: sub " + g.subSel(p+".sub", subSlots)
+			g.used["Item.sub"] = true
+		}
+	}
+	if out == "" {
+		out = " id"
+	}
+	return "{" + out + " }"
+}
+
+func (g *c06Gen) query(roots []string, slots, subSlots int) string {
+	root := roots[nondet.Choice("root", len(roots))]
+	g.used["Query."+root] = true
+	switch root {
+	case "items", "first":
+		return "{ " + root + " " + g.itemSel(root, slots, subSlots) + " }"
+	}
+	// things: fragments per union member
+	out := ""
+	if nondet.Choice("things.typename", 2) == 1 {
+		out += " __typename"
+	}
+	if nondet.Choice("things.onItem", 2) == 1 {
+		out += " ... on Item " + g.itemSel("things.item", slots, subSlots)
+	}
+	switch nondet.Choice("things.onOther", 3) {
+	case 1:
+		out += " ... on Other { o }"
+		g.used["Other.o"] = true
+	case 2:
+		out += " ... on Other { id }"
+	}
+	if out == "" {
+		out = " __typename"
+	}
+	return "{ things {" + out + " } }"
+}
+
+var c06Movable = []string{"Item.a", "Item.b", "Item.name", "Item.sub", "Sub.c", "Other.o", "Query.items", "Query.first", "Query.things"}
+
+// c06Partition: every field the query mentions is implemented by s1, by s2, or
+// (if both is allowed) by both; the others by s1.
+func c06Partition(used map[string]bool, both bool) c06Assign {
+	as := c06Assign{}
+	n := 2
+	if both {
+		n = 3
+	}
+	for _, f := range c06Movable {
+		as[f] = []string{"s1"}
+		if !used[f] {
+			continue
+		}
+		switch nondet.Choice("svc."+f, n) {
+		case 1:
+			as[f] = []string{"s2"}
+		case 2:
+			as[f] = []string{"s1", "s2"}
+		}
+	}
+	return as
+}
+
+// c06ChosenData: the data aspects the query can observe are chosen freely.
+func c06ChosenData(used map[string]bool) *c06Data {
+	d := c06FixedData()
+	if used["Query.first"] && nondet.Choice("first.null", 2) == 1 {
+		d.first = 0
+	}
+	if used["Item.sub"] {
+		switch nondet.Choice("subs", 3) { // item 1 and item 2: sub / null
+		case 1:
+			d.subOf = map[int64]int64{1: 7, 2: 8}
+			d.c[8] = 80
+		case 2:
+			d.subOf = map[int64]int64{}
+		}
+	}
+	if used["Query.items"] {
+		switch nondet.Choice("items", 3) {
+		case 1:
+			d.items = []int64{}
+		case 2:
+			d.items = []int64{2, 1}
+		}
+	}
+	return d
+}
+
+// c06Extra: got equals want except for "__typename" entries want does not have.
+func c06Extra(got, want interface{}) bool {
+	switch g := got.(type) {
+	case map[string]interface{}:
+		w, ok := want.(map[string]interface{})
+		if !ok {
+			return false
+		}
+		for k, gv := range g {
+			wv, has := w[k]
+			if !has {
+				if k == "__typename" {
+					continue
+				}
+				return false
+			}
+			if !c06Extra(gv, wv) {
+				return false
+			}
+		}
+		for k := range w {
+			if _, has := g[k]; !has {
+				return false
+			}
+		}
+		return true
+	case []interface{}:
+		w, ok := want.([]interface{})
+		if !ok || len(w) != len(g) {
+			return false
+		}
+		for i := range g {
+			if !c06Extra(g[i], w[i]) {
+				return false
+			}
+		}
+		return true
+	}
+	return nondet.DeepEq(got, want)
+}
+
+func c06Check(roots []string, slots, subSlots int, rich, both bool) {
+	g := &c06Gen{used: map[string]bool{}, rich: rich}
+	text := g.query(roots, slots, subSlots)
+	as := c06Partition(g.used, both)
+	d := c06ChosenData(g.used)
+	c06Compare(g, text, as, d)
+}
+
+func c06Compare(g *c06Gen, text string, as c06Assign, d *c06Data) {
+	w := c06Setup([]string{"s1", "s2"}, as, d)
+	want, ok := w.reference(text)
+	nondet.Assert(ok, "generated-query-valid")
+	if !ok {
+		return
+	}
+	got, err := w.viaGateway(text)
+	nondet.Assert(err == nil, "gateway-answers")
+	if err != nil {
+		return
+	}
+	if !nondet.DeepEq(got, want) {
+		if c06Extra(got, want) {
+			// the only difference: "__typename" on union elements the client did not ask for
+			nondet.AssertClass(false, "same-json-as-combined", "extra-union-typename")
+		} else {
+			nondet.Assert(false, "same-json-as-combined")
+		}
+	} else {
+		nondet.Assert(true, "same-json-as-combined")
+	}
+	if w.requests["s1"] > 0 && w.requests["s2"] > 0 {
+		nondet.Cover("two-services")
+	}
+	nondet.Cover("answered")
+}
+
+var c06RepeatOpts = []string{" sub { id }", " sub { c }", " sub { y: c }", " x: sub { id }", " x: sub { c }", " a"}
+
+// c06Repeats: the same root field selected nroot times, each occurrence with
+// `slots` entries that repeat the aliases sub / x with different children.
+func c06Repeats(maxRoots, slots int, parts int) {
+	g := &c06Gen{used: map[string]bool{"Query.items": true, "Item.sub": true, "Sub.c": true, "Item.a": true}}
+	nroot := 1 + nondet.Choice("nroot", maxRoots)
+	text := "{"
+	for r := 0; r < nroot; r++ {
+		text += " items {"
+		for i := 0; i < slots; i++ {
+			text += c06RepeatOpts[nondet.Choice("r"+strconv.Itoa(r)+"."+strconv.Itoa(i), len(c06RepeatOpts))]
+		}
+		text += " }"
+	}
+	text += " }"
+	as := c06Assign{}
+	for _, f := range c06Movable {
+		as[f] = []string{"s1"}
+	}
+	switch nondet.Choice("partition", parts) {
+	case 1:
+		as["Sub.c"] = []string{"s2"}
+	case 2:
+		as["Item.sub"] = []string{"s2"}
+		as["Item.a"] = []string{"s2"}
+	}
+	d := c06FixedData()
+	d.subOf = map[int64]int64{1: 7, 2: 8}
+	d.c[8] = 80
+	c06Compare(g, text, as, d)
+}
+
+// quick: one root field of each kind, 2 selections per Item, plain fields, each field on s1 or s2
+func VerifC06Plain() { c06Check([]string{"items", "first", "things"}, 2, 1, false, false) }
+
+// quick: items / first with 2 entries per Item
+func VerifC06Items() { c06Check([]string{"items", "first"}, 2, 1, false, false) }
+
+// quick: the union root with 1 entry on Item
+func VerifC06Things() { c06Check([]string{"things"}, 1, 1, false, false) }
+
+// thorough: aliases, inline fragments, __typename; fields may live on both services
+func VerifC06Rich() { c06Check([]string{"items", "first", "things"}, 2, 2, true, true) }
+
+// thorough: the real DirectExecutorClient -> Server.Execute -> ExecuteRequest path (rerunner per sub-request)
+func VerifC06RealClients() {
+	c06RealClients = true
+	c06Check([]string{"items", "things"}, 1, 1, false, false)
+}
+
+// VerifC06Refresh: a request runs while the gateway installs a freshly fetched
+// schema (what poll does on every tick): same answer, and no unsynchronised
+// access to the gateway's state.
+func VerifC06Refresh() {
+	as := c06Assign{}
+	for _, f := range c06Movable {
+		as[f] = []string{"s1"}
+	}
+	as["Item.b"] = []string{"s2"}
+	d := c06FixedData()
+	w := c06Setup([]string{"s1", "s2"}, as, d)
+	text := "{ items { a b } }"
+	want, ok := w.reference(text)
+	nondet.Assert(ok, "generated-query-valid")
+	// the refreshed planner is built from the same service schemas
+	fresh := c06Setup([]string{"s1", "s2"}, as, d)
+	refreshed := false
+	nondet.Go("refresh", func() {
+		nondet.Yield()
+		w.gateway.setPlanner(fresh.planner, fresh.combined)
+		refreshed = true
+	})
+	got, err := w.viaGateway(text)
+	nondet.Quiesce()
+	nondet.Assert(refreshed, "refresh-returns")
+	nondet.Assert(err == nil, "gateway-answers")
+	if err == nil {
+		nondet.Assert(nondet.DeepEq(got, want), "same-json-as-combined")
+		nondet.Cover("answered")
+	}
+}
+
+// quick: repeated aliases with different children (one root occurrence with 3 entries, or up to 3 root occurrences with 1 entry)
+func VerifC06Repeats3() { c06Repeats(1, 3, 2) }
+func VerifC06RootRepeats() { c06Repeats(3, 1, 2) }
+
+// thorough: 4 entries; 3 roots x 2 entries; 3 partitions
+func VerifC06Repeats4()     { c06Repeats(1, 4, 3) }
+func VerifC06RootRepeats2() { c06Repeats(3, 2, 3) }
+
+var _ = strconv.Itoa
+
+
 func VerifC06Witness() {
 	as := c06Assign{"Item.a": {"s1"}, "Item.b": {"s2"}, "Item.name": {"s2"}, "Item.sub": {"s1"}, "Sub.c": {"s2"}, "Other.o": {"s1"}, "Query.items": {"s1"}, "Query.first": {"s2"}, "Query.things": {"s1"}}
-	w := c06Setup([]string{"s1", "s2"}, as, c06Fixed())
+	d := c06FixedData()
+	d.subOf[2] = 8
+	d.c[8] = 80
+	w := c06Setup([]string{"s1", "s2"}, as, d)
 	text := "{ items { a b sub { c } } }"
 	want, ok := w.reference(text)
 	got, err := w.viaGateway(text)
-	w.cancel()
-	if ok && err == nil && nondet.DeepEq(got, want) {
+	if err != nil {
+		panic("gateway: " + err.Error())
+	}
+	if !ok {
+		panic("reference failed")
+	}
+	if nondet.DeepEq(got, want) && w.requests["s1"] == 1 && w.requests["s2"] >= 1 {
 		nondet.Assert(false, "reachability")
 	}
 }
